@@ -4,6 +4,10 @@ import json, os
 V = os.path.dirname(os.path.dirname(os.path.abspath(__file__)))
 ALL = ["C%02d" % i for i in range(1, 20)]
 CHECKS = {
+ "C01": dict(level="model_checking", ref="5/C01",
+   text="spec/PeAuthenticode.tla transcribes the Microsoft PE-image-hash algorithm as a step machine (one action per numbered step) over abstract layouts with real byte offsets; TLC checks on every layout of the bounded space that the hashed ranges cover every byte except checksum, certificate-table entry and certificate table exactly once (CoverageThm, NeverExcluded, Ascending, PadTo8) and emits the ranges. Every layout is concretised to a real image by an independent PE writer; authenticode.Parse().Hash() must equal SHA-256 over exactly those ranges plus padding, and flipping any layout-neutral byte must change the digest iff the specification covers it. Repository binaries are projected to layouts by an independent reader and checked against TLC's ranges for them.",
+   note="Trusted: TLC, harness PE writer/reader (offsets cross-checked against the spec per layout), SHA-256. Quick: 1056 layouts + boundary flips; thorough: ~80k layouts + every free byte. With gaps the oracle is the literal algorithm.",
+   technique="TLA+ transcription of the algorithm model-checked with TLC; TLC-emitted ranges as oracle for the real code; byte-flip conformance"),
  "C07": dict(level="model_checking", ref="5/C07",
    text="spec/EslCodec.tla models the decoder as a step machine over abstract streams; TLC checks WellFormedAccepted/AcceptSound on every well-formed stream of the bounded language and emits each with its exact lists; every one is concretised, decoded by the real ReadSignatureDatabase, compared entry by entry and re-encoded byte-identically. The converse (databases reachable through library operations) is decided by replaying TLC-generated SigDb histories with a recode after every step and validating the recorded events with SigDbTrace. Repository fixtures are projected to abstract cases and judged by TLC (observation config).",
    note="Trusted: TLC, the harness's independent ESL writer/reader, SHA-256 identity of filler bytes. hdrsize != 0 and zero-count lists are MAY. Exhaustive within: <=2 (quick) / <=3 (thorough) lists of 18 shapes.",
